@@ -248,6 +248,24 @@ pub fn gen_c03(rng: &mut Rng, n: usize, out: &mut Vec<String>) {
                 out.push(format!("NEW {}", hex_str(&t)));
                 // what the broker publishes for it: the same diagnostics as LSP ranges (inside the document)
                 out.push(format!("PUB {}", hex_str(&t)));
+                // the same errors at the same BYTES but at other POSITIONS: a previous life of the URI (closed and
+                // re-opened, or replaced by a full-text change) in which one blank was a line break (or the reverse)
+                let tb = t.as_bytes();
+                let cand = (1..blo.min(tb.len().saturating_sub(1))).rev().find(|&i| {
+                    if tb[i] != b' ' {
+                        return false;
+                    }
+                    let ls = t[..i].rfind('\n').map_or(0, |x| x + 1);
+                    !t[ls..i].contains("//") && !(tb[i - 1] == b'\'' && tb[i + 1] == b'\'')
+                });
+                let prev = if let Some(i) = cand {
+                    format!("{}\n{}", &t[..i], &t[i + 1..])
+                } else {
+                    t.replacen('\n', " ", 1)
+                };
+                let mode = if rng.chance(1, 2) { "X" } else { "C" };
+                out.push(format!("PUB {} {} {}", hex_str(&t), hex_str(&prev), mode));
+                out.push(format!("JUDGEPUB {} {} {} {} {}", hex_str(&t), hex_str(&prev), mode, blo, bhi));
             }
         }
     }
